@@ -36,4 +36,5 @@ def oracle(H):
     return oracles.c02(H)
 
 
+SWEEP = (8, 120)
 install(globals(), ID, 3000, 40000)
